@@ -460,6 +460,7 @@ func (r *Reader) parseSlideRelationships(slidePath string, index int) {
 		return
 	}
 
+	rels.sourceDir = dir
 	r.slideRels[index] = rels
 }
 
@@ -483,16 +484,25 @@ func (r *Reader) parseSlideNotes(index int, slide *Slide) {
 		return
 	}
 
-	// Normalize path
-	if strings.HasPrefix(notesPath, "../") {
-		notesPath = "ppt/" + strings.TrimPrefix(notesPath, "../")
-	} else if !strings.HasPrefix(notesPath, "ppt/") {
-		notesPath = "ppt/slides/" + notesPath
+	// A relationship target is resolved against the part that owns the
+	// relationships (here: the slide, wherever it lives in the package), or
+	// against the package root when it starts with "/".
+	resolved := path.Join(rels.sourceDir, notesPath)
+	if strings.HasPrefix(notesPath, "/") {
+		resolved = path.Clean(notesPath)[1:]
 	}
 
-	data, err := r.getFileContent(notesPath)
+	data, err := r.getFileContent(resolved)
 	if err != nil {
-		return
+		// Tolerate a target written relative to the package root without
+		// the leading "/".
+		if !strings.HasPrefix(notesPath, "ppt/") || notesPath == resolved {
+			return
+		}
+		data, err = r.getFileContent(notesPath)
+		if err != nil {
+			return
+		}
 	}
 
 	var notes notesSlideXML
